@@ -123,7 +123,7 @@ def decide(pid, tier, seed, keep=False, only_obligation=None):
             htime = max(h.get("timeout", 300) for _, h in hs)
             jobs = int(os.environ.get("FV_JOBS", "12"))
             run = kani.run_harnesses(crate_info["crate"], names, jobs=jobs, harness_timeout=htime,
-                                     total_timeout=P.get("total_timeout", 5400))
+                                     total_timeout=P.get("total_timeout", 5400) if tier == "quick" else 12 * 3600)
             backends["kani"]["wall_s"] += run["wall_s"]
             backends["kani"]["cmd"] = run["cmd"]
             backends["kani"]["peak_rss_mb"] = run["peak_rss_kb"] // 1024
@@ -442,7 +442,7 @@ def main(argv):
                 if not hs:
                     return 0
             run = kani.run_harnesses(info["crate"], [h["full"] for h in hs], jobs=int(os.environ.get("FV_JOBS", "12")),
-                                     harness_timeout=a.timeout or max(h.get("timeout", 300) for h in hs))
+                                     harness_timeout=a.timeout or max(h.get("timeout", 300) for h in hs), total_timeout=8 * 3600)
             if run["json"] is None:
                 log(run["out"][-6000:])
             cls = kani.classify(run, [h["name"] for h in hs])
